@@ -301,11 +301,7 @@ theorem shootStep_copy (c : Cfg) (gun : Nat) (scn : String) (cd : CallDef) (w : 
           then .ok w' (svNext cd (specStep c scn cd (stepVars c cd w.iters sv).1).2.2 sv) (specStep c scn cd (stepVars c cd w.iters sv).1).1
           else .failed w' (specStep c scn cd (stepVars c cd w.iters sv).1).1) := by
   have hsv : stepVars c cd w.iters sv =
-      (let owner := iterOwner c cd
-       let drawn := (assocGet w.iters owner).getD 0
-       let ui : Option String × List (String × Nat) :=
-         if cd.pre then (some (c.users.getD (drawn % c.users.length) ""), assocSet w.iters owner (drawn + 1)) else (none, w.iters)
-       (mkVars ui.1 (svFor cd sv) c.g, ui.2)) := rfl
+      (mkVars (drawUser c cd w.iters).1 (svFor cd sv) c.g c.gn, (drawUser c cd w.iters).2) := rfl
   -- a template that cannot be parsed / executed: only the iterator moves
   by_cases hbad : callBad cd = true
   · refine ⟨{ w with iters := (stepVars c cd w.iters sv).2 }, ⟨hw.1, hw.2⟩, rfl, ?_⟩
@@ -352,44 +348,23 @@ theorem shootStep_copy (c : Cfg) (gun : Nat) (scn : String) (cd : CallDef) (w : 
   refine ⟨w', hw', rfl, ?_⟩
   unfold shootStep specStep
   simp only [hm1, hbad', Bool.false_eq_true, if_false]
-  by_cases hpre : cd.pre = true
-  · simp only [hpre, if_true] at hsv ⊢
-    simp only [hcells, Option.getD_some]
-    rw [hsv] at happ
-    simp only at happ
-    rw [happ]
-    simp only [hsv]
-    cases hl : lookupMethod cd.call with
-    | none => simp [w', stepVars, hpre, tmplsOf]
-    | some mf =>
-      obtain ⟨m, fs⟩ := mf
-      simp only
-      cases hdec : decodeFields fs _ with
-      | none => simp [w', stepVars, hpre, tmplsOf]
-      | some vals =>
-        simp [w', stepVars, hpre, tmplsOf, svNext, zip_fst_comp2]
-        all_goals (try (split <;> simp_all))
-        all_goals (try (by_cases hA : cd.name = "auth" <;> simp only [hA, if_true, if_false]))
-        all_goals (try (split <;> simp_all))
-  · have hpre' : cd.pre = false := by simpa using hpre
-    simp only [hpre', Bool.false_eq_true, if_false] at hsv ⊢
-    simp only [hcells, Option.getD_some]
-    rw [hsv] at happ
-    simp only at happ
-    rw [happ]
-    simp only [hsv]
-    cases hl : lookupMethod cd.call with
-    | none => simp [w', stepVars, hpre', tmplsOf]
-    | some mf =>
-      obtain ⟨m, fs⟩ := mf
-      simp only
-      cases hdec : decodeFields fs _ with
-      | none => simp [w', stepVars, hpre', tmplsOf]
-      | some vals =>
-        simp [w', stepVars, hpre', tmplsOf, svNext, zip_fst_comp2]
-        all_goals (try (split <;> simp_all))
-        all_goals (try (by_cases hA : cd.name = "auth" <;> simp only [hA, if_true, if_false]))
-        all_goals (try (split <;> simp_all))
+  simp only [hcells, Option.getD_some]
+  rw [hsv] at happ
+  simp only at happ
+  rw [happ]
+  simp only [hsv]
+  cases hl : lookupMethod cd.call with
+  | none => simp [w', stepVars, tmplsOf]
+  | some mf =>
+    obtain ⟨m, fs⟩ := mf
+    simp only
+    cases hdec : decodeFields fs _ with
+    | none => simp [w', stepVars, tmplsOf]
+    | some vals =>
+      simp [w', stepVars, tmplsOf, svNext, zip_fst_comp2]
+      all_goals (try (split <;> simp_all))
+      all_goals (try (by_cases hA : cd.name = "auth" <;> simp only [hA, if_true, if_false]))
+      all_goals (try (split <;> simp_all))
 
 theorem mapM_find_mem (calls : List CallDef) : ∀ (reqs : List String) (cds : List CallDef),
     reqs.mapM (fun r => calls.find? (·.name == r)) = some cds → ∀ cd ∈ cds, cd ∈ calls
